@@ -26,6 +26,11 @@ CHECKS = {
    "For small parameters the reachable transition relation of the real generated circuit is shown equal to the specification's (every transition replayed, registers compared), which transfers TLC's exhaustive verdict over all environment strategies to the real module; larger parameters are driven by random protocol-abiding environments and every clock of every execution is judged by the property-level trace spec on interface signals only.",
    "Exhaustive: LIFO/FIFO, depth 1..3 (4 thorough), up to 2x2 (3x2 thorough) agents, 1-bit data. Random: depth<=5, <=3x3 agents, data 1..4 bits, 150 clocks. Trusted: TLC, the Verilog interpreter (cross-checked by the zero-mismatch transition replay), NeededBits widths as coded.",
    "DESIGN.md §4 C13", "bmverif"),
+ "C08": ("model_checking",
+   "TLA+ spec NumLex: synchronous product of the NFAs of every pair of the real matcher regexes (compiled by Go's regexp/syntax) explored by TLC, witnesses replayed on the real regexes and import functions; TLA+ spec NumLit: denotation and printers of the integer notations with WidthLaw/RoundTrip checked by TLC, table replayed on ImportString/Export*; round-trip law on bit patterns for float16/32 and fixed-point types",
+   "Ambiguity is decided on the regular languages themselves: TLC's reachability over the product automaton is the intersection-emptiness test for all 190 pairs of notations, and every common word up to a length bound is replayed on the two real import functions to compare meanings; the integer notations' meaning and every printer are specified and replayed row by row, so a notation that claims another's strings, a wrong width or a lossy printer is found.",
+   "NFAs come from regexp/syntax (trusted); integer rows bounded to widths <= 30 bit in TLC (32-bit integers); float round trips: all finite float16 patterns (every 7th in quick), boundary + random float32 patterns, all 8-bit and random 16-bit fixed-point patterns; IEEE rounding of conversions is not modelled. Width is compared after a round trip only where the exported text states it (bin, hex).",
+   "DESIGN.md §4 C08", "bmverif"),
 }
 NOT_APPLICABLE = {
  "C18": "static well-formedness of generated Verilog text (parse/lint judgement): no state, transitions or behaviour for a TLA+ specification to decide; see DESIGN.md §5",
